@@ -532,6 +532,7 @@ def signature(case):
         "nby": len(case["by"]),
         "min_count": case.get("min_count"),
         "fill_given": case.get("fill_value") is not None,
+        "has_big_int": bool(isinstance(arr, dict) and str(arr.get("dtype", "")).startswith(("int64", "uint64")) and any(isinstance(v, int) and abs(v) > 2**53 for v in data)),
     }
 
 
